@@ -228,6 +228,7 @@ class Harness:
         self.witnesses = witnesses   # also ask the solver for concrete inputs of satisfied covers (costly on big harnesses)
 
 
+PRIVATE_COVER_MODULES = {"h_loop"}
 CBMC_FLAGS = ["--no-malloc-may-fail", "--no-undefined-shift-check", "--no-signed-overflow-check", "--nan-check",
               "--no-self-loops-to-assumptions", "--no-pointer-primitive-check", "--object-bits", "16",
               "--sat-solver", "cadical", "--slice-formula"]
@@ -335,7 +336,11 @@ def _run_kani(h, slot, logdir, playback, suffix="", scale=1):
         r["status"] = "inconclusive"
         r["reason"] = "no verdict (build error, unsupported construct or CBMC error); see log"
     elif r["verdict"] == "SUCCESSFUL":
-        bad = [d for d, s in r["covers"].items() if s != "SATISFIED"]
+        # witnesses that sit in another harness family's private code (reachable only syntactically, e.g. the C16
+        # final checks hanging off the exit model) say nothing about this harness
+        hmod = h.path.split("::")[0]
+        foreign = {d for d, nm in r.get("cover_names", {}).items() if nm.split("::")[0] in PRIVATE_COVER_MODULES and nm.split("::")[0] != hmod}
+        bad = [d for d, s in r["covers"].items() if s != "SATISFIED" and d not in foreign]
         if isinstance(h.covers_required, (list, tuple, set)):
             # only the named witnesses are required (others are meaningless in this case of a split)
             bad = [d for d in h.covers_required if r["covers"].get(d) != "SATISFIED"]
